@@ -4,7 +4,9 @@
    lead prompt or not), opening_lead / dummy_shown (the first two cards, Dummy's hand shown), play_general / play_all
    (the 52 cards along seq_cards, the four observers kept in step by Proofs/Play.v's obs_sim0), board_deal /
    board_passed / board_played / board_general (one board; the record logged is Model/Conform.v's model_record),
-   loop_general (the list of logged records), startup_general, conforming_session_recs, the two theorems.
+   loop_general (the list of logged records), startup_general, conforming_session_full / conforming_session_recs, the two theorems.
+   Every phase lemma also says exactly what is sent down each of the four sockets (relay_to, card_to, dummy_to,
+   auction_view, play_view, board_view, views_from, down_view); what the clients send up stays existentially quantified.
    Standard library only; closed under the global context. *)
 From BE Require Import Model.Session Model.Conform Proofs.Kahn Proofs.Session Proofs.Wire Proofs.SessionPassOut.
 From BE Require Proofs.Play.
@@ -47,19 +49,25 @@ Qed.
 Ltac unf_all_bid :=
   unf_bidding; unf_tb 0; unf_tb 1; unf_tb 2; unf_tb 3; unf_cb 0; unf_cb 1; unf_cb 2; unf_cb 3.
 
+(* what goes down the socket of seat q when seat a's call, relayed as m, is announced *)
+Definition relay_to (a : seat) (m : string) (q : seat) : list msg := if seat_beq q a then [] else [MS m].
+
 Lemma round_general : forall a s s' o f calls m m' c r km kt0 kt1 kt2 kt3 kc0 kc1 kc2 kc3 L T0 T1 T2 T3 T4 T5 T6 T7 b F,
   active s = Some a -> calls a = (m, c) :: r ->
   server_read_bid m (formal_name a) = (m', Some c) -> parse_bid m' (formal_name a) = Some c ->
   take_bid s c = (s', o) -> (o = Ongoing \/ o = Finished) ->
-  (forall T0' T1' T2' T3' T4' T5' T6' T7',
-     reach (BidSt f s' (pop calls a) km kt0 kt1 kt2 kt3 kc0 kc1 kc2 kc3 L T0' T1' T2' T3' T4' T5' T6' T7' b) F) ->
+  (forall T1' T3' T5' T7',
+     reach (BidSt f s' (pop calls a) km kt0 kt1 kt2 kt3 kc0 kc1 kc2 kc3 L
+              (T0 ++ relay_to a m' North) T1' (T2 ++ relay_to a m' East) T3'
+              (T4 ++ relay_to a m' South) T5' (T6 ++ relay_to a m' West) T7' b) F) ->
   reach (BidSt (S f) s calls km kt0 kt1 kt2 kt3 kc0 kc1 kc2 kc3 L T0 T1 T2 T3 T4 T5 T6 T7 b) F.
 Proof.
   intros a s s' o f calls m m' c r km kt0 kt1 kt2 kt3 kc0 kc1 kc2 kc3 L T0 T1 T2 T3 T4 T5 T6 T7 b F Ha Hc Hs Hp Ht Ho HF.
   pose proof (parse_bid_not_closed _ _ _ Hp) as Hn.
   assert (Hr : r = tl (calls a)) by (rewrite Hc; reflexivity).
-  unfold BidSt, QS, pop in *.
+  unfold BidSt, QS, pop, relay_to in *.
   destruct a; destruct Ho as [-> | ->];
+    cbn [seat_beq] in HF; rewrite ?app_nil_r in HF;
     unf_all_bid; rewrite Ha; cbv iota; cbn [seat_beq];
     unfold put_all, put_others, all_seats; cbn [fold_right seat_beq]; cbv iota;
     autorun ltac:(rewrite ?Hc, ?Hs, ?Hp, ?Ht, ?Hn); rewrite Hr; apply HF.
@@ -67,16 +75,32 @@ Qed.
 
 (* ===================================================================== the whole auction *)
 (* ---------- the whole auction, along seq_calls ---------- *)
+(* the relayed calls seat q is sent during the auction *)
+Fixpoint auction_view (fuel : nat) (s : astate) (said : said_calls) (q : seat) : list msg :=
+  match fuel with
+  | 0 => []
+  | S f =>
+    match active s with
+    | None => []
+    | Some a =>
+      match said a with
+      | [] => []
+      | (m, c) :: _ => relay_to a (fst (server_read_bid m (formal_name a))) q ++ auction_view f (fst (take_bid s c)) (pop said a) q
+      end end end.
+
 Lemma auction_general : forall fuel s calls sfin, seq_calls fuel s calls = Some sfin ->
   forall km kt0 kt1 kt2 kt3 kc0 kc1 kc2 kc3 L T0 T1 T2 T3 T4 T5 T6 T7 b F,
-  (forall f' calls' T0' T1' T2' T3' T4' T5' T6' T7', active sfin = None ->
-     reach (BidSt (S f') sfin calls' km kt0 kt1 kt2 kt3 kc0 kc1 kc2 kc3 L T0' T1' T2' T3' T4' T5' T6' T7' b) F) ->
+  (forall f' calls' T1' T3' T5' T7', active sfin = None ->
+     reach (BidSt (S f') sfin calls' km kt0 kt1 kt2 kt3 kc0 kc1 kc2 kc3 L
+              (T0 ++ auction_view fuel s calls North) T1' (T2 ++ auction_view fuel s calls East) T3'
+              (T4 ++ auction_view fuel s calls South) T5' (T6 ++ auction_view fuel s calls West) T7' b) F) ->
   reach (BidSt fuel s calls km kt0 kt1 kt2 kt3 kc0 kc1 kc2 kc3 L T0 T1 T2 T3 T4 T5 T6 T7 b) F.
 Proof.
   induction fuel as [|f IH]; intros s calls sfin H km kt0 kt1 kt2 kt3 kc0 kc1 kc2 kc3 L T0 T1 T2 T3 T4 T5 T6 T7 b F HF;
     cbn [seq_calls] in H; [discriminate|].
+  cbn [auction_view] in HF.
   destruct (active s) as [a|] eqn:Ha.
-  2:{ injection H as <-. apply HF. exact Ha. }
+  2:{ injection H as <-. rewrite !app_nil_r in HF. apply HF. exact Ha. }
   destruct (calls a) as [|[m c] r] eqn:Hc; [discriminate|].
   destruct (server_read_bid m (formal_name a)) as [m' [c'|]] eqn:Hs; [|discriminate].
   destruct (call_beq c c') eqn:E1; [|discriminate]. apply internal_call_dec_bl in E1. subst c'.
@@ -85,9 +109,11 @@ Proof.
   destruct (take_bid s c) as [s' o] eqn:Ht.
   assert (Ho : o = Ongoing \/ o = Finished) by (destruct o; try discriminate; auto).
   assert (H' : seq_calls f s' (pop calls a) = Some sfin) by (destruct Ho as [-> | ->]; exact H).
+  cbn [fst] in HF.
   eapply (round_general a s s' o f calls m m' c r); try eassumption.
-  intros T0' T1' T2' T3' T4' T5' T6' T7'.
-  eapply IH; [exact H'|exact HF].
+  intros T1' T3' T5' T7'.
+  eapply IH; [exact H'|].
+  intros f' calls' U1 U3 U5 U7 Hact. rewrite <- !app_assoc. apply HF. exact Hact.
 Qed.
 
 (* ===================================================================== the ready-for-card line is accepted for every trick number *)
@@ -163,6 +189,16 @@ Ltac unf_all_play := unf_pl; unf_tp 0; unf_tp 1; unf_tp 2; unf_tp 3; unf_cp 0; u
 
 Definition speaker (a decl : seat) : seat := if seat_beq a (partner decl) then decl else a.
 
+(* what goes down the socket of seat q for one card: the lead prompt (first card of a trick, to the seat that speaks),
+   then the relayed card text (to the three seats that did not say it) *)
+Definition lead_to (lead : bool) (a decl q : seat) : list msg :=
+  if lead then
+    (if seat_beq a q && negb (seat_beq q (partner decl)) then [MS (formal_name q ++ " to lead")]
+     else if seat_beq a (partner decl) && seat_beq q decl then [MS "Dummy to lead"] else [])
+  else [].
+Definition card_to (lead : bool) (a decl : seat) (m : string) (q : seat) : list msg :=
+  lead_to lead a decl q ++ (if seat_beq (speaker a decl) q then [] else [MS m]).
+
 (* ===================================================================== one card of the play (from the third card on): any seat on turn, any declarer, lead prompt or not *)
 Lemma card_round : forall a decl lead f i hs hs' orig a0 ld os os' cards m c r K kt0 kt1 kt2 kt3 kc0 kc1 kc2 kc3
     L T0 T1 T2 T3 T4 T5 T6 T7 b F,
@@ -172,20 +208,21 @@ Lemma card_round : forall a decl lead f i hs hs' orig a0 ld os os' cards m c r K
   (forall q, declarer (obase (os q)) = decl) -> (forall q, trick_num (obase (os q)) = i / 4 + 1) ->
   cards (speaker a decl) = (m, c) :: r -> parse_card m a = Some c -> play_by hs c a = (hs', POk) ->
   (forall q, obs_play_by (os q) c a = (os' q, POk)) ->
-  (forall T0' T1' T2' T3' T4' T5' T6' T7',
+  (forall T1' T3' T5' T7',
      reach (PlaySt f (S i) hs' orig decl (next a) os' true (pop cards (speaker a decl)) K kt0 kt1 kt2 kt3 kc0 kc1 kc2 kc3
-              L T0' T1' T2' T3' T4' T5' T6' T7' b) F) ->
+              L (T0 ++ card_to lead a decl m North) T1' (T2 ++ card_to lead a decl m East) T3'
+                (T4 ++ card_to lead a decl m South) T5' (T6 ++ card_to lead a decl m West) T7' b) F) ->
   reach (PlaySt (S f) i hs orig decl a0 os true cards K kt0 kt1 kt2 kt3 kc0 kc1 kc2 kc3 L T0 T1 T2 T3 T4 T5 T6 T7 b) F.
 Proof.
   intros a decl lead f i hs hs' orig a0 ld os os' cards m c r K kt0 kt1 kt2 kt3 kc0 kc1 kc2 kc3
     L T0 T1 T2 T3 T4 T5 T6 T7 b F Hi0 Hm Hld Ha0 Hpa Hdm Hdc Hle Opa Odm Odc Otn Hc Hpc Hpb Hob HF.
   pose proof (parse_card_not_closed _ _ _ Hpc) as Hn.
   assert (Hr : r = tl (cards (speaker a decl))) by (rewrite Hc; reflexivity).
-  unfold PlaySt, QS, pop, speaker in *.
+  unfold PlaySt, QS, pop, card_to, lead_to, speaker in *.
   destruct lead; [rewrite (Hld eq_refl) in Hle|rewrite (Ha0 eq_refl)]; clear Hld Ha0;
     destruct a, decl;
     unf_all_play; rewrite ?Hi0, ?Hm, ?Hpa, ?Hdm, ?Hdc, ?Hle, ?Opa, ?Odm, ?Odc, ?Otn;
-    cbn [partner next seat_beq andb orb negb] in *; cbv beta iota zeta;
+    cbn [partner next seat_beq andb orb negb] in *; cbn [app] in HF; rewrite ?app_nil_r in HF; cbv beta iota zeta;
     unfold put_all, put_others, all_seats; cbn [fold_right seat_beq]; cbv iota;
     autorun ltac:(rewrite ?Hc, ?Hpc, ?Hpb, ?Hob, ?Hn, ?ready_card_ok by (simpl; tauto));
     rewrite Hr; apply HF.
@@ -232,24 +269,29 @@ Lemma opening_lead : forall decl f hs0 hs1 orig a0 os os1 cards m0 c0 r0 K kt0 k
   (forall q, declarer (obase (os q)) = decl) -> (forall q, trick_num (obase (os q)) = 0 / 4 + 1) ->
   cards (next decl) = (m0, c0) :: r0 -> parse_card m0 (next decl) = Some c0 -> play_by hs0 c0 (next decl) = (hs1, POk) ->
   (forall q, obs_play_by (os q) c0 (next decl) = (os1 q, POk)) ->
-  (forall T0' T1' T2' T3' T4' T5' T6' T7',
+  (forall T1' T3' T5' T7',
      reach (MidSt f hs1 orig decl os1 (pop cards (next decl)) K kt0 kt1 kt2 kt3 kc0 kc1 kc2 kc3
-              L T0' T1' T2' T3' T4' T5' T6' T7' b) F) ->
+              L (T0 ++ card_to true (next decl) decl m0 North) T1' (T2 ++ card_to true (next decl) decl m0 East) T3'
+                (T4 ++ card_to true (next decl) decl m0 South) T5' (T6 ++ card_to true (next decl) decl m0 West) T7' b) F) ->
   reach (PlaySt (S f) 0 hs0 orig decl a0 os false cards K kt0 kt1 kt2 kt3 kc0 kc1 kc2 kc3 L T0 T1 T2 T3 T4 T5 T6 T7 b) F.
 Proof.
   intros decl f hs0 hs1 orig a0 os os1 cards m0 c0 r0 K kt0 kt1 kt2 kt3 kc0 kc1 kc2 kc3
     L T0 T1 T2 T3 T4 T5 T6 T7 b F H0pa H0dm H0dc H0le Opa Odm Odc Otn Hc0 Hpc0 Hpb0 Hob0 HF.
   pose proof (parse_card_not_closed _ _ _ Hpc0) as Hn0.
   assert (Hr0 : r0 = tl (cards (next decl))) by (rewrite Hc0; reflexivity).
-  unfold PlaySt, MidSt, QS, pop in *.
+  unfold PlaySt, MidSt, QS, pop, card_to, lead_to, speaker in *.
   destruct decl;
     cbn [partner next seat_beq] in *;
     unf_all_play; rewrite ?H0pa, ?H0dm, ?H0dc, ?H0le, ?Opa, ?Odm, ?Odc, ?Otn;
-    cbn [partner next seat_beq andb orb negb] in *; cbv beta iota zeta;
+    cbn [partner next seat_beq andb orb negb] in *; cbn [app] in HF; rewrite ?app_nil_r in HF; cbv beta iota zeta;
     unfold put_all, put_others, all_seats; cbn [fold_right seat_beq]; cbv iota;
     autorun2 ltac:(rewrite ?Hc0, ?Hpc0, ?Hpb0, ?Hob0, ?Hn0, ?ready_card_ok by (simpl; tauto));
     rewrite Hr0; apply HF.
 Qed.
+
+(* Dummy's cards, to the three other seats *)
+Definition dummy_to (orig : deal) (decl q : seat) : list msg :=
+  if seat_beq q (partner decl) then [] else [MS (cards_line "Dummy" (orig (partner decl)))].
 
 (* the second card: dummy's hand is shown to the three other seats, declarer plays from it *)
 Lemma dummy_shown : forall decl f hs1 hs2 orig os1 os2 hd cards m1 c1 r1 K kt0 kt1 kt2 kt3 kc0 kc1 kc2 kc3
@@ -260,9 +302,12 @@ Lemma dummy_shown : forall decl f hs1 hs2 orig os1 os2 hd cards m1 c1 r1 K kt0 k
   parse_cards_line (cards_line "Dummy" (orig (partner decl))) "Dummy" = Some hd ->
   cards decl = (m1, c1) :: r1 -> parse_card m1 (partner decl) = Some c1 -> play_by hs1 c1 (partner decl) = (hs2, POk) ->
   (forall q, obs_play_by (if seat_beq q (partner decl) then os1 q else set_dummy_hand (os1 q) hd) c1 (partner decl) = (os2 q, POk)) ->
-  (forall T0' T1' T2' T3' T4' T5' T6' T7',
+  (forall T1' T3' T5' T7',
      reach (PlaySt f 2 hs2 orig decl (next (partner decl)) os2 true (pop cards decl) K kt0 kt1 kt2 kt3 kc0 kc1 kc2 kc3
-              L T0' T1' T2' T3' T4' T5' T6' T7' b) F) ->
+              L (T0 ++ dummy_to orig decl North ++ card_to false (partner decl) decl m1 North) T1'
+                (T2 ++ dummy_to orig decl East ++ card_to false (partner decl) decl m1 East) T3'
+                (T4 ++ dummy_to orig decl South ++ card_to false (partner decl) decl m1 South) T5'
+                (T6 ++ dummy_to orig decl West ++ card_to false (partner decl) decl m1 West) T7' b) F) ->
   reach (MidSt (S f) hs1 orig decl os1 cards K kt0 kt1 kt2 kt3 kc0 kc1 kc2 kc3 L T0 T1 T2 T3 T4 T5 T6 T7 b) F.
 Proof.
   intros decl f hs1 hs2 orig os1 os2 hd cards m1 c1 r1 K kt0 kt1 kt2 kt3 kc0 kc1 kc2 kc3
@@ -271,15 +316,15 @@ Proof.
   assert (Hr1 : r1 = tl (cards decl)) by (rewrite Hc1; reflexivity).
   pose proof (Hob1 North) as HobN. pose proof (Hob1 East) as HobE. pose proof (Hob1 South) as HobS. pose proof (Hob1 West) as HobW.
   clear Hob1.
-  unfold PlaySt, MidSt, QS, pop in *.
+  unfold PlaySt, MidSt, QS, pop, dummy_to, card_to, lead_to, speaker in *.
   destruct decl;
     cbn [partner next seat_beq] in *; cbv beta iota zeta;
     unf_all_play; rewrite ?H1pa, ?H1dm, ?H1dc, ?O1pa, ?O1dm, ?O1dc, ?O1tn;
-    cbn [partner next seat_beq andb orb negb] in *; cbv beta iota zeta;
+    cbn [partner next seat_beq andb orb negb] in *; cbn [app] in HF; rewrite ?app_nil_r in HF; cbv beta iota zeta;
     unfold put_all, put_others, all_seats; cbn [fold_right seat_beq]; cbv iota;
     autorun2 ltac:(rewrite ?Hhd, ?dummy_line_open, ?Hc1, ?Hpc1, ?Hpb1, ?HobN, ?HobE, ?HobS, ?HobW, ?Hn1,
                        ?ready_card_ok by (simpl; tauto));
-    rewrite Hr1; apply HF.
+    rewrite Hr1; rewrite <- ?app_assoc; cbn [app]; apply HF.
 Qed.
 
 (* ===================================================================== the invariant of the play: the four observers stay in step with the full-information state *)
@@ -369,18 +414,45 @@ Qed.
 
 (* ===================================================================== the cards from the third on, along seq_cards *)
 (* ---------- the cards from the third on, along seq_cards ---------- *)
+(* what seat q is sent during the play: per card the lead prompt and the relayed card, Dummy's cards after the first card *)
+Fixpoint play_view (fuel i : nat) (hs : hstate) (orig : deal) (said : said_cards) (q : seat) : list msg :=
+  match fuel with
+  | 0 => []
+  | S f =>
+    match said (speaker (pactive (hbase hs)) (declarer (hbase hs))) with
+    | [] => []
+    | (m, c) :: _ =>
+        card_to (i mod 4 =? 0) (pactive (hbase hs)) (declarer (hbase hs)) m q ++
+        (if i =? 0 then dummy_to orig (declarer (hbase hs)) q else []) ++
+        play_view f (S i) (fst (play_by hs c (pactive (hbase hs)))) orig (pop said (speaker (pactive (hbase hs)) (declarer (hbase hs)))) q
+    end end.
+Lemma play_view_S f i hs orig said q :
+  play_view (S f) i hs orig said q =
+  match said (speaker (pactive (hbase hs)) (declarer (hbase hs))) with
+  | [] => []
+  | (m, c) :: _ =>
+      card_to (i mod 4 =? 0) (pactive (hbase hs)) (declarer (hbase hs)) m q ++
+      (if i =? 0 then dummy_to orig (declarer (hbase hs)) q else []) ++
+      play_view f (S i) (fst (play_by hs c (pactive (hbase hs)))) orig (pop said (speaker (pactive (hbase hs)) (declarer (hbase hs)))) q
+  end.
+Proof. reflexivity. Qed.
+
 Lemma play_general k decl orig : forall f i hs cards hsfin, seq_cards f hs cards = Some hsfin ->
   forall a0 os K kt0 kt1 kt2 kt3 kc0 kc1 kc2 kc3 L T0 T1 T2 T3 T4 T5 T6 T7 b F,
   (i =? 0) = false -> PInv k decl i hs os -> DInv decl hs os -> ((i mod 4 =? 0) = false -> a0 = pactive (hbase hs)) ->
-  (forall a0' os' cards' T0' T1' T2' T3' T4' T5' T6' T7', PInv k decl (i + f) hsfin os' ->
-     reach (PlaySt 0 (i + f) hsfin orig decl a0' os' true cards' K kt0 kt1 kt2 kt3 kc0 kc1 kc2 kc3 L T0' T1' T2' T3' T4' T5' T6' T7' b) F) ->
+  (forall a0' os' cards' T1' T3' T5' T7', PInv k decl (i + f) hsfin os' ->
+     reach (PlaySt 0 (i + f) hsfin orig decl a0' os' true cards' K kt0 kt1 kt2 kt3 kc0 kc1 kc2 kc3 L
+              (T0 ++ play_view f i hs orig cards North) T1' (T2 ++ play_view f i hs orig cards East) T3'
+              (T4 ++ play_view f i hs orig cards South) T5' (T6 ++ play_view f i hs orig cards West) T7' b) F) ->
   reach (PlaySt f i hs orig decl a0 os true cards K kt0 kt1 kt2 kt3 kc0 kc1 kc2 kc3 L T0 T1 T2 T3 T4 T5 T6 T7 b) F.
 Proof.
   induction f as [|f IH]; intros i hs cards hsfin H a0 os K kt0 kt1 kt2 kt3 kc0 kc1 kc2 kc3 L T0 T1 T2 T3 T4 T5 T6 T7 b F
     Hi0 HP HD Ha0 HF; cbn [seq_cards] in H.
-  - injection H as <-. rewrite <- (Nat.add_0_r i) at 1. apply HF. rewrite Nat.add_0_r. exact HP.
+  - injection H as <-. cbn [play_view] in HF. rewrite !app_nil_r in HF.
+    rewrite <- (Nat.add_0_r i) at 1. apply HF. rewrite Nat.add_0_r. exact HP.
   - cbv zeta in H.
     pose proof (pinv_facts _ _ _ _ _ HP) as (Fdm & Fdc & Ftn & Flt & Fpa & _ & Opa & Odm & Odc & Otn).
+    rewrite !play_view_S in HF. rewrite Fdc in HF.
     remember (pactive (hbase hs)) as a eqn:Ea.
     rewrite Fdm, Fdc in H. change (if seat_beq a (partner decl) then decl else a) with (speaker a decl) in H.
     destruct (cards (speaker a decl)) as [|[m c] r] eqn:Hc; [discriminate|].
@@ -390,16 +462,17 @@ Proof.
     rewrite Ea in Hpb.
     destruct (pinv_step k decl i hs os c hs' HP (fun _ => HD) Hpb) as (os' & Hob & HP' & HD' & Hnx & _).
     rewrite <- Ea in Hpb, Hob, Hnx.
+    cbn [fst] in HF. rewrite Hi0 in HF. cbn [app] in HF.
     assert (Hld : (i mod 4 =? 0) = true -> leader (hbase hs) = a).
     { intros Hm. apply Nat.eqb_eq in Hm. rewrite Fpa, Hm. reflexivity. }
     eapply (card_round a decl (i mod 4 =? 0) f i hs hs' orig a0 (leader (hbase hs)) os os' cards m c r
               K kt0 kt1 kt2 kt3 kc0 kc1 kc2 kc3 L T0 T1 T2 T3 T4 T5 T6 T7 b F
               Hi0 eq_refl Hld Ha0 (eq_sym Ea) Fdm Fdc eq_refl Opa Odm Odc Otn Hc Hpc Hpb Hob).
-    intros T0' T1' T2' T3' T4' T5' T6' T7'.
+    intros T1' T3' T5' T7'.
     eapply (IH (S i) hs' (pop cards (speaker a decl)) hsfin H); [reflexivity|exact HP'|exact (HD' HD)| |].
     + intros Hm. apply Hnx. exact Hm.
-    + intros a0' os'' cards' U0 U1 U2 U3 U4 U5 U6 U7 HPf.
-      replace (S i + f) with (i + S f) in * by lia. apply HF. exact HPf.
+    + intros a0' os'' cards' U1 U3 U5 U7 HPf.
+      replace (S i + f) with (i + S f) in * by lia. rewrite <- !app_assoc. apply HF. exact HPf.
 Qed.
 
 (* ===================================================================== the 52 cards *)
@@ -431,8 +504,12 @@ Lemma play_all : forall kk d b0 orig cards hsfin f os0 a0 K kt0 kt1 kt2 kt3 kc0 
   init_play kk = Some b0 -> declarer b0 = d -> dummy b0 = partner d -> leader b0 = next d -> pactive b0 = next d ->
   (forall q, obase (os0 q) = b0 /\ ome (os0 q) = q /\ odummy (os0 q) = None /\ same_cards (ohand (os0 q)) (orig q)) ->
   seq_cards (S (S f)) (mkH b0 orig) cards = Some hsfin ->
-  (forall a0' os' cards' T0' T1' T2' T3' T4' T5' T6' T7', PInv kk d (2 + f) hsfin os' ->
-     reach (PlaySt 0 (2 + f) hsfin orig d a0' os' true cards' K kt0 kt1 kt2 kt3 kc0 kc1 kc2 kc3 L T0' T1' T2' T3' T4' T5' T6' T7' b) F) ->
+  (forall a0' os' cards' T1' T3' T5' T7', PInv kk d (2 + f) hsfin os' ->
+     reach (PlaySt 0 (2 + f) hsfin orig d a0' os' true cards' K kt0 kt1 kt2 kt3 kc0 kc1 kc2 kc3 L
+              (T0 ++ play_view (S (S f)) 0 (mkH b0 orig) orig cards North) T1'
+              (T2 ++ play_view (S (S f)) 0 (mkH b0 orig) orig cards East) T3'
+              (T4 ++ play_view (S (S f)) 0 (mkH b0 orig) orig cards South) T5'
+              (T6 ++ play_view (S (S f)) 0 (mkH b0 orig) orig cards West) T7' b) F) ->
   reach (PlaySt (S (S f)) 0 (mkH b0 orig) orig d a0 os0 false cards K kt0 kt1 kt2 kt3 kc0 kc1 kc2 kc3 L T0 T1 T2 T3 T4 T5 T6 T7 b) F.
 Proof.
   intros kk d b0 orig cards hsfin f os0 a0 K kt0 kt1 kt2 kt3 kc0 kc1 kc2 kc3 L T0 T1 T2 T3 T4 T5 T6 T7 b F
@@ -455,7 +532,7 @@ Proof.
   rewrite E0 in Hob0, Hnx0, Hhn1.
   eapply (opening_lead d (S f) hs0 hs1 orig a0 os0 os1 cards m0 c0 r0 K kt0 kt1 kt2 kt3 kc0 kc1 kc2 kc3 L T0 T1 T2 T3 T4 T5 T6 T7 b F
             E0 F0dm F0dc Hle O0pa O0dm O0dc O0tn Hc0 Hpc0 Hpb0 Hob0).
-  clear T0 T1 T2 T3 T4 T5 T6 T7. intros T0 T1 T2 T3 T4 T5 T6 T7.
+  clear T1 T3 T5 T7. intros T1 T3 T5 T7.
   (* card 1 *)
   assert (E1 : pactive (hbase hs1) = partner d) by (symmetry; apply Hnx0; reflexivity).
   pose proof (pinv_facts _ _ _ _ _ HP1) as (F1dm & F1dc & _ & _ & _ & _ & O1pa & O1dm & O1dc & O1tn).
@@ -474,17 +551,25 @@ Proof.
   destruct (pinv_step kk d 1 hs1 os1' c1 hs2 HP1' (fun _ => HD1')) as (os2 & Hob1 & HP2 & HD2 & Hnx1 & _).
   { rewrite E1. exact Hpb1. }
   rewrite E1 in Hob1, Hnx1. specialize (HD2 HD1').
-  eapply (dummy_shown d f hs1 hs2 orig os1 os2 hd (pop cards (next d)) m1 c1 r1 K kt0 kt1 kt2 kt3 kc0 kc1 kc2 kc3 L T0 T1 T2 T3 T4 T5 T6 T7 b F
+  eapply (dummy_shown d f hs1 hs2 orig os1 os2 hd (pop cards (next d)) m1 c1 r1 K kt0 kt1 kt2 kt3 kc0 kc1 kc2 kc3 L _ T1 _ T3 _ T5 _ T7 b F
             E1 F1dm F1dc O1pa O1dm O1dc O1tn Hhd Hc1 Hpc1 Hpb1 Hob1).
-  clear T0 T1 T2 T3 T4 T5 T6 T7. intros T0 T1 T2 T3 T4 T5 T6 T7.
+  clear T1 T3 T5 T7. intros T1 T3 T5 T7.
   (* the other cards *)
   eapply (play_general kk d orig f 2 hs2 _ hsfin Hsq2); [reflexivity|exact HP2|exact HD2| |].
   { intros _. apply Hnx1. reflexivity. }
-  exact HF.
+  (* the three pieces are the view of the whole play *)
+  assert (EV : forall T q,
+     ((T ++ card_to true (next d) d m0 q) ++ dummy_to orig d q ++ card_to false (partner d) d m1 q) ++
+       play_view f 2 hs2 orig (pop (pop cards (next d)) d) q = T ++ play_view (S (S f)) 0 hs0 orig cards q).
+  { intros T q. rewrite (play_view_S (S f) 0 hs0). rewrite E0, F0dc, speaker_lead, Hc0, Hpb0. cbn [fst].
+    rewrite (play_view_S f 1 hs1). rewrite E1, F1dc, speaker_dummy, Hc1, Hpb1. cbn [fst].
+    change (0 mod 4 =? 0) with true. change (0 =? 0) with true. change (1 mod 4 =? 0) with false. change (1 =? 0) with false.
+    cbv iota. cbn [app]. rewrite <- !app_assoc. reflexivity. }
+  intros a0' os' cards' U1 U3 U5 U7 HPf. rewrite !EV. apply HF. exact HPf.
 Qed.
 
 (* ===================================================================== one board *)
-Strategy 1000 [bidding t_bidding c_bidding playing t_playing c_playing boards_loop t_boards c_boards seq_calls seq_cards conform_board].
+Strategy 1000 [bidding t_bidding c_bidding playing t_playing c_playing boards_loop t_boards c_boards seq_calls seq_cards conform_board auction_view play_view].
 
 (* ---------- the continuations of the three kinds of process after the auction of a board ---------- *)
 Definition KTb (i ft : nat) (me : seat) : proc :=
@@ -560,6 +645,10 @@ Ltac deal_a2 i HK :=
   go ti; go ti; cget ci; rewrite HK; rewrite c_boards_S; go ci; go ci;
   go ti; cbv iota; evhd ti; go ti.
 
+(* the three lines every seat is sent at the start of a board *)
+Definition deal_to (k : nat) (bd : board) (q : seat) : list msg :=
+  [MS START; MS (board_header k (b_dealer bd) (b_vul bd)); MS (cards_line (formal_name q) (b_deal bd q))].
+
 (* ---------- a board up to the start of its auction ---------- *)
 Lemma board_deal : forall bd rest k names ft fc sc s0 s1 s2 s3 h0 h1 h2 h3 K0 K1 K2 K3 L T0 T1 T2 T3 T4 T5 T6 T7 b F,
   K0 START = c_boards 4 0 North (S fc) START (sc North :: s0) ->
@@ -570,19 +659,20 @@ Lemma board_deal : forall bd rest k names ft fc sc s0 s1 s2 s3 h0 h1 h2 h3 K0 K1
   parse_cards_line (cards_line (formal_name East) (b_deal bd East)) (formal_name East) = Some h1 ->
   parse_cards_line (cards_line (formal_name South) (b_deal bd South)) (formal_name South) = Some h2 ->
   parse_cards_line (cards_line (formal_name West) (b_deal bd West)) (formal_name West) = Some h3 ->
-  (forall T0' T1' T2' T3' T4' T5' T6' T7',
+  (forall T1' T3' T5' T7',
      reach (BidSt 400 (Auction.init (b_dealer bd) (b_vul bd)) (fun p => sc_calls (sc p)) (KMb bd rest k names)
               (KTb 0 ft North) (KTb 1 ft East) (KTb 2 ft South) (KTb 3 ft West)
               (KCb 0 North fc (sc North) s0 h0) (KCb 1 East fc (sc East) s1 h1)
               (KCb 2 South fc (sc South) s2 h2) (KCb 3 West fc (sc West) s3 h3)
-              L T0' T1' T2' T3' T4' T5' T6' T7' (S (S b))) F) ->
+              L (T0 ++ deal_to k bd North) T1' (T2 ++ deal_to k bd East) T3'
+                (T4 ++ deal_to k bd South) T5' (T6 ++ deal_to k bd West) T7' (S (S b))) F) ->
   reach (QS (boards_loop 4 CN names (bd :: rest) k)
             (t_boards 4 0 (S ft) North) (t_boards 4 1 (S ft) East) (t_boards 4 2 (S ft) South) (t_boards 4 3 (S ft) West)
             (crecv 0 K0) (crecv 1 K1) (crecv 2 K2) (crecv 3 K3) L T0 T1 T2 T3 T4 T5 T6 T7 b) F.
 Proof.
   intros bd rest k names ft fc sc s0 s1 s2 s3 h0 h1 h2 h3 K0 K1 K2 K3 L T0 T1 T2 T3 T4 T5 T6 T7 b F
     HK0 HK1 HK2 HK3 Hh0 Hh1 Hh2 Hh3 HF.
-  unfold QS, BidSt in *.
+  unfold QS, BidSt, deal_to in *.
   rewrite boards_loop_cons, !t_boards_S.
   unfold send, expect, forward_q, sget, crecv.
   deal_a2 0 HK0. deal_a2 1 HK1. deal_a2 2 HK2. deal_a2 3 HK3.
@@ -592,7 +682,7 @@ Proof.
   deal_b 0. deal_b 1. deal_b 2. deal_b 3.
   go 0. go 0. go 1. go 2. go 3. go 4.
   deal_c 0 Hh0. deal_c 1 Hh1. deal_c 2 Hh2. deal_c 3 Hh3.
-  apply HF.
+  rewrite <- !app_assoc. cbn [app]. apply HF.
 Qed.
 
 (* ---------- what is logged is the record of Model/Conform.v ---------- *)
@@ -618,11 +708,11 @@ Proof. intros H1 H2 H3 H4 H5 H6 H7. unfold model_record. rewrite H1, H2, H3, H4,
 Lemma board_passed : forall bd rest k names ft fc sc s0 s1 s2 s3 h0 h1 h2 h3 f sfin kk calls L T0 T1 T2 T3 T4 T5 T6 T7 b F,
   seq_calls 400 (Auction.init (b_dealer bd) (b_vul bd)) (fun p => sc_calls (sc p)) = Some sfin ->
   active sfin = None -> contract_of sfin = Some kk -> is_passed_out kk = true ->
-  (forall r T0' T1' T2' T3' T4' T5' T6' T7', model_record names bd sc = Some r ->
+  (forall r T1' T3' T5' T7', model_record names bd sc = Some r ->
      reach (QS (m_after names rest (S k))
                (t_after 0 ft North) (t_after 1 ft East) (t_after 2 ft South) (t_after 3 ft West)
                (c_next 0 North fc s0) (c_next 1 East fc s1) (c_next 2 South fc s2) (c_next 3 West fc s3)
-               (L ++ [MLog (LRec r)]) T0' T1' T2' T3' T4' T5' T6' T7' b) F) ->
+               (L ++ [MLog (LRec r)]) T0 T1' T2 T3' T4 T5' T6 T7' b) F) ->
   reach (BidSt (S f) sfin calls (KMb bd rest k names)
               (KTb 0 ft North) (KTb 1 ft East) (KTb 2 ft South) (KTb 3 ft West)
               (KCb 0 North fc (sc North) s0 h0) (KCb 1 East fc (sc East) s1 h1)
@@ -653,11 +743,15 @@ Lemma board_played : forall bd rest k names ft fc sc s0 s1 s2 s3 h0 h1 h2 h3 f s
   active sfin = None -> contract_of sfin = Some kk -> is_passed_out kk = false ->
   init_hands kk (b_deal bd) = Some hs0 -> seq_cards 52 hs0 (fun p => sc_cards (sc p)) = Some hsfin ->
   same_cards h0 (b_deal bd North) -> same_cards h1 (b_deal bd East) -> same_cards h2 (b_deal bd South) -> same_cards h3 (b_deal bd West) ->
-  (forall r T0' T1' T2' T3' T4' T5' T6' T7', model_record names bd sc = Some r ->
+  (forall r T1' T3' T5' T7', model_record names bd sc = Some r ->
      reach (QS (m_after names rest (S k))
                (t_after 0 ft North) (t_after 1 ft East) (t_after 2 ft South) (t_after 3 ft West)
                (c_next 0 North fc s0) (c_next 1 East fc s1) (c_next 2 South fc s2) (c_next 3 West fc s3)
-               (L ++ [MLog (LRec r)]) T0' T1' T2' T3' T4' T5' T6' T7' b) F) ->
+               (L ++ [MLog (LRec r)])
+               (T0 ++ play_view 52 0 hs0 (b_deal bd) (fun p => sc_cards (sc p)) North) T1'
+               (T2 ++ play_view 52 0 hs0 (b_deal bd) (fun p => sc_cards (sc p)) East) T3'
+               (T4 ++ play_view 52 0 hs0 (b_deal bd) (fun p => sc_cards (sc p)) South) T5'
+               (T6 ++ play_view 52 0 hs0 (b_deal bd) (fun p => sc_cards (sc p)) West) T7' b) F) ->
   reach (BidSt (S f) sfin calls (KMb bd rest k names)
               (KTb 0 ft North) (KTb 1 ft East) (KTb 2 ft South) (KTb 3 ft West)
               (KCb 0 North fc (sc North) s0 h0) (KCb 1 East fc (sc East) s1 h1)
@@ -684,7 +778,7 @@ Proof.
   unfold PlaySt, QS in HH. cbv beta in HH. subst hq. cbv beta iota in HH.
   eapply HH; [exact Hb0|exact Hdc|exact Hdm|exact Hle|exact Hpa| |exact Hsq|]; clear HH.
   { intros q. repeat split; try reflexivity; destruct q; cbn; first [apply Hs0 | apply Hs1 | apply Hs2 | apply Hs3]. }
-  clear T0 T1 T2 T3 T4 T5 T6 T7. intros a0' os' cards' T0 T1 T2 T3 T4 T5 T6 T7 HPf.
+  clear T1 T3 T5 T7. intros a0' os' cards' T1 T3 T5 T7 HPf.
   change (2 + 50) with 52 in *.
   pose proof (pinv_facts _ _ _ _ _ HPf) as (_ & Ffdc & _ & _ & _ & Ftk & _).
   unfold PlaySt, QS. cbn [playing t_playing c_playing]. cbv zeta.
@@ -711,6 +805,32 @@ Proof.
   exists hs0, hsfin. split; [reflexivity|symmetry; exact Er].
 Qed.
 
+(* ---------- everything seat q is sent during one board ---------- *)
+Definition board_view (k : nat) (bd : board) (sc : seat -> cscript) (q : seat) : list msg :=
+  deal_to k bd q ++
+  auction_view 400 (Auction.init (b_dealer bd) (b_vul bd)) (fun p => sc_calls (sc p)) q ++
+  match seq_calls 400 (Auction.init (b_dealer bd) (b_vul bd)) (fun p => sc_calls (sc p)) with
+  | None => []
+  | Some s =>
+      match contract_of s with
+      | None => []
+      | Some kk =>
+          if is_passed_out kk then []
+          else match init_hands kk (b_deal bd) with
+               | None => []
+               | Some hs0 => play_view 52 0 hs0 (b_deal bd) (fun p => sc_cards (sc p)) q end end end.
+Lemma board_view_passed k bd sc s kk q T :
+  seq_calls 400 (Auction.init (b_dealer bd) (b_vul bd)) (fun p => sc_calls (sc p)) = Some s ->
+  contract_of s = Some kk -> is_passed_out kk = true ->
+  (T ++ deal_to k bd q) ++ auction_view 400 (Auction.init (b_dealer bd) (b_vul bd)) (fun p => sc_calls (sc p)) q = T ++ board_view k bd sc q.
+Proof. intros H1 H2 H3. unfold board_view. rewrite H1, H2, H3. rewrite app_nil_r, app_assoc. reflexivity. Qed.
+Lemma board_view_played k bd sc s kk hs0 q T :
+  seq_calls 400 (Auction.init (b_dealer bd) (b_vul bd)) (fun p => sc_calls (sc p)) = Some s ->
+  contract_of s = Some kk -> is_passed_out kk = false -> init_hands kk (b_deal bd) = Some hs0 ->
+  ((T ++ deal_to k bd q) ++ auction_view 400 (Auction.init (b_dealer bd) (b_vul bd)) (fun p => sc_calls (sc p)) q) ++
+    play_view 52 0 hs0 (b_deal bd) (fun p => sc_cards (sc p)) q = T ++ board_view k bd sc q.
+Proof. intros H1 H2 H3 H4. unfold board_view. rewrite H1, H2, H3, H4. rewrite <- !app_assoc. reflexivity. Qed.
+
 (* ---------- one board, any conforming scripts ---------- *)
 Lemma board_general : forall bd rest k names ft fc sc s0 s1 s2 s3 K0 K1 K2 K3 L T0 T1 T2 T3 T4 T5 T6 T7 b F,
   conform_board bd sc = true ->
@@ -718,11 +838,12 @@ Lemma board_general : forall bd rest k names ft fc sc s0 s1 s2 s3 K0 K1 K2 K3 L 
   K1 START = c_boards 4 1 East (S fc) START (sc East :: s1) ->
   K2 START = c_boards 4 2 South (S fc) START (sc South :: s2) ->
   K3 START = c_boards 4 3 West (S fc) START (sc West :: s3) ->
-  (forall r T0' T1' T2' T3' T4' T5' T6' T7', model_record names bd sc = Some r ->
+  (forall r T1' T3' T5' T7', model_record names bd sc = Some r ->
      reach (QS (m_after names rest (S k))
                (t_after 0 ft North) (t_after 1 ft East) (t_after 2 ft South) (t_after 3 ft West)
                (c_next 0 North fc s0) (c_next 1 East fc s1) (c_next 2 South fc s2) (c_next 3 West fc s3)
-               (L ++ [MLog (LRec r)]) T0' T1' T2' T3' T4' T5' T6' T7' (S (S b))) F) ->
+               (L ++ [MLog (LRec r)]) (T0 ++ board_view k bd sc North) T1' (T2 ++ board_view k bd sc East) T3'
+               (T4 ++ board_view k bd sc South) T5' (T6 ++ board_view k bd sc West) T7' (S (S b))) F) ->
   reach (QS (boards_loop 4 CN names (bd :: rest) k)
             (t_boards 4 0 (S ft) North) (t_boards 4 1 (S ft) East) (t_boards 4 2 (S ft) South) (t_boards 4 3 (S ft) West)
             (crecv 0 K0) (crecv 1 K1) (crecv 2 K2) (crecv 3 K3) L T0 T1 T2 T3 T4 T5 T6 T7 b) F.
@@ -735,16 +856,18 @@ Proof.
   destruct (hand_roundtrip (formal_name West) (b_deal bd West)) as (h3 & Hh3 & Hs3); [simpl; tauto|].
   apply (board_deal bd rest k names ft fc sc s0 s1 s2 s3 h0 h1 h2 h3 K0 K1 K2 K3 L T0 T1 T2 T3 T4 T5 T6 T7 b F
            HK0 HK1 HK2 HK3 Hh0 Hh1 Hh2 Hh3).
-  clear T0 T1 T2 T3 T4 T5 T6 T7. intros T0 T1 T2 T3 T4 T5 T6 T7.
+  clear T1 T3 T5 T7. intros T1 T3 T5 T7.
   apply (auction_general 400 _ _ sfin Hsc).
-  clear T0 T1 T2 T3 T4 T5 T6 T7. intros f' calls' T0 T1 T2 T3 T4 T5 T6 T7 Hact.
+  clear T1 T3 T5 T7. intros f' calls' T1 T3 T5 T7 Hact.
   destruct Hcase as [Hpo|(Hpo & hs0 & hsfin & Hih & Hsq)].
-  - apply (board_passed bd rest k names ft fc sc s0 s1 s2 s3 h0 h1 h2 h3 f' sfin kk calls' L T0 T1 T2 T3 T4 T5 T6 T7 (S (S b)) F Hsc Hact Hk Hpo HF).
-  - apply (board_played bd rest k names ft fc sc s0 s1 s2 s3 h0 h1 h2 h3 f' sfin kk hs0 hsfin calls' L T0 T1 T2 T3 T4 T5 T6 T7 (S (S b)) F
-             Hsc Hact Hk Hpo Hih Hsq Hs0 Hs1 Hs2 Hs3 HF).
+  - apply (board_passed bd rest k names ft fc sc s0 s1 s2 s3 h0 h1 h2 h3 f' sfin kk calls' L _ T1 _ T3 _ T5 _ T7 (S (S b)) F Hsc Hact Hk Hpo).
+    intros r U1 U3 U5 U7 Hr. rewrite !(board_view_passed k bd sc sfin kk _ _ Hsc Hk Hpo). apply HF. exact Hr.
+  - apply (board_played bd rest k names ft fc sc s0 s1 s2 s3 h0 h1 h2 h3 f' sfin kk hs0 hsfin calls' L _ T1 _ T3 _ T5 _ T7 (S (S b)) F
+             Hsc Hact Hk Hpo Hih Hsq Hs0 Hs1 Hs2 Hs3).
+    intros r U1 U3 U5 U7 Hr. rewrite !(board_view_played k bd sc sfin kk hs0 _ _ Hsc Hk Hpo Hih). apply HF. exact Hr.
 Qed.
 
-(* ===================================================================== any non-empty list of boards, with the list of logged records *)
+(* ===================================================================== any non-empty list of boards, with the logged records and what is sent *)
 (* ---------- scripts and boards by index ---------- *)
 Lemma skipn_nth (l : list cscript) : forall a, S a <= length l -> skipn a l = nth_script l a :: skipn (S a) l.
 Proof.
@@ -764,8 +887,34 @@ Definition recs_from (names : seat -> string) (scr : seat -> list cscript) (a : 
 Lemma recs_from_length names scr a rest : length (recs_from names scr a rest) = length rest.
 Proof. unfold recs_from. rewrite map_length, combine_length, seq_length. apply Nat.min_id. Qed.
 
+(* everything seat q is sent from board index a (number k) on *)
+Fixpoint views_from (scr : seat -> list cscript) (k a : nat) (rest : list board) (q : seat) : list msg :=
+  match rest with
+  | [] => []
+  | bd :: rest' => board_view k bd (fun p => nth_script (scr p) a) q ++ views_from scr (S k) (S a) rest' q
+  end.
+
+(* ---------- end of session, with what is sent ---------- *)
+Lemma session_end_tr : forall k names ft fc s0 s1 s2 s3 L T0 T1 T2 T3 T4 T5 T6 T7 b F,
+  (forall T1' T3' T5' T7',
+     reach (QS Ret Ret Ret Ret Ret Ret Ret Ret Ret (L ++ [MLog LClose])
+              (T0 ++ [MS END_SESSION]) T1' (T2 ++ [MS END_SESSION]) T3' (T4 ++ [MS END_SESSION]) T5' (T6 ++ [MS END_SESSION]) T7' b) F) ->
+  reach (QS (m_after names [] k)
+            (t_after 0 ft North) (t_after 1 ft East) (t_after 2 ft South) (t_after 3 ft West)
+            (c_next 0 North fc s0) (c_next 1 East fc s1) (c_next 2 South fc s2) (c_next 3 West fc s3)
+            L T0 T1 T2 T3 T4 T5 T6 T7 b) F.
+Proof.
+  intros k names ft fc s0 s1 s2 s3 L T0 T1 T2 T3 T4 T5 T6 T7 b F HF.
+  unfold QS in *. unfold m_after, t_after, c_next. cbn [boards_loop].
+  unfold logp, put_all, join_all, all_seats; cbn [fold_right].
+  do 5 go 0.
+  end_t 0. end_t 1. end_t 2. end_t 3.
+  do 4 go 0.
+  apply HF.
+Qed.
+
 (* ---------- any non-empty list of boards ---------- *)
-Opaque conform_board model_record.
+Opaque conform_board model_record board_view.
 Lemma loop_general : forall rest, rest <> [] -> forall a scr k names K0 K1 K2 K3 L T0 T1 T2 T3 T4 T5 T6 T7 b F,
   (forall p, length (scr p) = a + length rest) ->
   forallb (fun '(j, b) => conform_board b (fun p => nth_script (scr p) j)) (combine (seq a (length rest)) rest) = true ->
@@ -773,8 +922,12 @@ Lemma loop_general : forall rest, rest <> [] -> forall a scr k names K0 K1 K2 K3
   K1 START = c_boards 4 1 East (S (length rest)) START (skipn a (scr East)) ->
   K2 START = c_boards 4 2 South (S (length rest)) START (skipn a (scr South)) ->
   K3 START = c_boards 4 3 West (S (length rest)) START (skipn a (scr West)) ->
-  (forall recs T0' T1' T2' T3' T4' T5' T6' T7' b', map Some recs = recs_from names scr a rest ->
-     reach (QS Ret Ret Ret Ret Ret Ret Ret Ret Ret (L ++ map recmsg recs ++ [MLog LClose]) T0' T1' T2' T3' T4' T5' T6' T7' b') F) ->
+  (forall recs T1' T3' T5' T7' b', map Some recs = recs_from names scr a rest ->
+     reach (QS Ret Ret Ret Ret Ret Ret Ret Ret Ret (L ++ map recmsg recs ++ [MLog LClose])
+              (T0 ++ views_from scr k a rest North ++ [MS END_SESSION]) T1'
+              (T2 ++ views_from scr k a rest East ++ [MS END_SESSION]) T3'
+              (T4 ++ views_from scr k a rest South ++ [MS END_SESSION]) T5'
+              (T6 ++ views_from scr k a rest West ++ [MS END_SESSION]) T7' b') F) ->
   reach (QS (boards_loop 4 CN names rest k)
             (t_boards 4 0 (S (length rest)) North) (t_boards 4 1 (S (length rest)) East)
             (t_boards 4 2 (S (length rest)) South) (t_boards 4 3 (S (length rest)) West)
@@ -788,19 +941,20 @@ Proof.
   eapply (board_general bd rest k names (length (bd :: rest)) (length (bd :: rest)) (fun p => nth_script (scr p) a)
             (skipn (S a) (scr North)) (skipn (S a) (scr East)) (skipn (S a) (scr South)) (skipn (S a) (scr West))
             K0 K1 K2 K3 L T0 T1 T2 T3 T4 T5 T6 T7 b F HC1 HK0 HK1 HK2 HK3).
-  clear T0 T1 T2 T3 T4 T5 T6 T7. intros r T0 T1 T2 T3 T4 T5 T6 T7 Hr.
+  clear T1 T3 T5 T7. intros r T1 T3 T5 T7 Hr.
+  cbn [views_from] in HF.
   destruct rest as [|bd' rest'].
-  - apply session_end. clear T0 T1 T2 T3 T4 T5 T6 T7. intros T0 T1 T2 T3 T4 T5 T6 T7.
-    rewrite <- app_assoc. apply (HF [r]).
+  - apply session_end_tr. clear T1 T3 T5 T7. intros T1 T3 T5 T7.
+    cbn [views_from] in HF. rewrite !app_nil_r in HF. rewrite <- !app_assoc. apply (HF [r]).
     unfold recs_from. rewrite map_seq_cons. cbn [map]. rewrite Hr. reflexivity.
   - apply next_board.
     eapply (IH ltac:(discriminate) (S a) scr (S k) names); [|exact HC2|reflexivity|reflexivity|reflexivity|reflexivity|].
     + intros p. rewrite (Hlen p). cbn [length]. lia.
-    + intros recs T0' T1' T2' T3' T4' T5' T6' T7' b' Hrecs.
-      rewrite <- app_assoc. apply (HF (r :: recs)).
+    + intros recs T1' T3' T5' T7' b' Hrecs.
+      rewrite <- !app_assoc in HF. rewrite <- !app_assoc. apply (HF (r :: recs)).
       unfold recs_from in *. rewrite map_seq_cons. cbn [map]. rewrite Hr, Hrecs. reflexivity.
 Qed.
-Transparent conform_board model_record.
+Transparent conform_board model_record board_view.
 
 (* ===================================================================== start of the session; the theorems *)
 (* ---------- admission, seating barrier and team line, for any scripts ---------- *)
@@ -817,7 +971,7 @@ Proof. reflexivity. Qed.
 
 Lemma startup_general : forall boards ns ew scripts F, no_quote ns -> no_quote ew ->
   (forall p, length (scripts p) = length boards) ->
-  (forall T0 T1 T2 T3 T4 T5 T6 T7,
+  (forall T1 T3 T5 T7,
      reach (QS (boards_loop 4 CN (NM ns ew) boards 1)
                (t_boards 4 0 (S (length boards)) North) (t_boards 4 1 (S (length boards)) East)
                (t_boards 4 2 (S (length boards)) South) (t_boards 4 3 (S (length boards)) West)
@@ -825,7 +979,8 @@ Lemma startup_general : forall boards ns ew scripts F, no_quote ns -> no_quote e
                (crecv 1 (fun s => c_boards 4 1 East (S (length boards)) s (scripts East)))
                (crecv 2 (fun s => c_boards 4 2 South (S (length boards)) s (scripts South)))
                (crecv 3 (fun s => c_boards 4 3 West (S (length boards)) s (scripts West)))
-               [MLog LOpen] T0 T1 T2 T3 T4 T5 T6 T7 1) F) ->
+               [MLog LOpen] [MS (seated_line North ns); MS (teams_line ns ew)] T1 [MS (seated_line East ew); MS (teams_line ns ew)] T3
+               [MS (seated_line South ns); MS (teams_line ns ew)] T5 [MS (seated_line West ew); MS (teams_line ns ew)] T7 1) F) ->
   reach (init_state (conf_session boards ns ew scripts)) F.
 Proof.
   intros boards ns ew scripts F Hns Hew Hlen HF. rewrite init_eq_general.
@@ -857,7 +1012,45 @@ Proof.
   rewrite forallb_forall in H1. intros p. apply Nat.eqb_eq. apply H1. destruct p; cbn; tauto.
 Qed.
 
-(* completion, with the list of logged records: board j's record is model_record of board j and the j-th scripts *)
+(* the lines sent to the seat p during the whole session *)
+Definition down_view (boards : list board) (ns ew : string) (scripts : seat -> list cscript) (p : seat) : list msg :=
+  [MS (seated_line p (match side_of p with NS => ns | EW => ew end)); MS (teams_line ns ew)] ++
+  views_from scripts 1 0 boards p ++ [MS END_SESSION].
+
+(* completion, with the list of logged records (board j's record is model_record of board j and the j-th scripts)
+   and with the four transcripts of what the table manager sent *)
+Lemma conforming_session_full : forall boards ns ew scripts,
+  boards <> [] -> no_quote ns -> no_quote ew -> conforming boards scripts = true ->
+  exists l f, srun l (init_state (conf_session boards ns ew scripts)) = Some f /\
+              Kahn.all_doneb msg f = true /\
+              (exists recs, log_events 4 f = LOpen :: map LRec recs ++ [LClose] /\
+                            map Some recs = recs_from (NM ns ew) scripts 0 boards) /\
+              chan f (tr_down 4 0) = down_view boards ns ew scripts North /\
+              chan f (tr_down 4 1) = down_view boards ns ew scripts East /\
+              chan f (tr_down 4 2) = down_view boards ns ew scripts South /\
+              chan f (tr_down 4 3) = down_view boards ns ew scripts West.
+Proof.
+  intros boards ns ew scripts Hne Hns Hew Hconf.
+  destruct (conforming_lengths boards scripts Hconf) as [Hlen HC].
+  change (reach (init_state (conf_session boards ns ew scripts))
+            (fun f => Kahn.all_doneb msg f = true /\
+                      (exists recs, log_events 4 f = LOpen :: map LRec recs ++ [LClose] /\
+                                    map Some recs = recs_from (NM ns ew) scripts 0 boards) /\
+                      chan f (tr_down 4 0) = down_view boards ns ew scripts North /\
+                      chan f (tr_down 4 1) = down_view boards ns ew scripts East /\
+                      chan f (tr_down 4 2) = down_view boards ns ew scripts South /\
+                      chan f (tr_down 4 3) = down_view boards ns ew scripts West)).
+  apply startup_general; [exact Hns | exact Hew | exact Hlen |]. intros T1 T3 T5 T7.
+  apply (loop_general boards Hne 0 scripts); [exact Hlen|exact HC|reflexivity|reflexivity|reflexivity|reflexivity|].
+  intros recs T1' T3' T5' T7' b' Hl.
+  apply reach_done. split; [reflexivity|]. split; [|repeat split; reflexivity].
+  exists recs. split; [|exact Hl].
+  unfold log_events.
+  match goal with |- context[chan (QS ?a ?b ?c ?d ?e ?f ?g ?h ?i ?L ?t0 ?t1 ?t2 ?t3 ?t4 ?t5 ?t6 ?t7 ?bb) (ch_log 4)] =>
+    change (chan (QS a b c d e f g h i L t0 t1 t2 t3 t4 t5 t6 t7 bb) (ch_log 4)) with L end.
+  apply log_flat.
+Qed.
+
 Lemma conforming_session_recs : forall boards ns ew scripts,
   boards <> [] -> no_quote ns -> no_quote ew -> conforming boards scripts = true ->
   exists l f, srun l (init_state (conf_session boards ns ew scripts)) = Some f /\
@@ -866,19 +1059,8 @@ Lemma conforming_session_recs : forall boards ns ew scripts,
                            map Some recs = recs_from (NM ns ew) scripts 0 boards.
 Proof.
   intros boards ns ew scripts Hne Hns Hew Hconf.
-  destruct (conforming_lengths boards scripts Hconf) as [Hlen HC].
-  change (reach (init_state (conf_session boards ns ew scripts))
-            (fun f => Kahn.all_doneb msg f = true /\
-                      exists recs, log_events 4 f = LOpen :: map LRec recs ++ [LClose] /\
-                                   map Some recs = recs_from (NM ns ew) scripts 0 boards)).
-  apply startup_general; [exact Hns | exact Hew | exact Hlen |]. intros T0 T1 T2 T3 T4 T5 T6 T7.
-  apply (loop_general boards Hne 0 scripts); [exact Hlen|exact HC|reflexivity|reflexivity|reflexivity|reflexivity|].
-  intros recs T0' T1' T2' T3' T4' T5' T6' T7' b' Hl.
-  apply reach_done. split; [reflexivity|].
-  exists recs. split; [|exact Hl].
-  unfold log_events. change (chan (QS Ret Ret Ret Ret Ret Ret Ret Ret Ret ([MLog LOpen] ++ map recmsg recs ++ [MLog LClose]) T0' T1' T2' T3' T4' T5' T6' T7' b') (ch_log 4))
-    with ([MLog LOpen] ++ map recmsg recs ++ [MLog LClose]).
-  apply log_flat.
+  destruct (conforming_session_full boards ns ew scripts Hne Hns Hew Hconf) as (l & f & Hr & Hd & Hrecs & _).
+  exists l, f. auto.
 Qed.
 
 Theorem conforming_session_completes : forall boards ns ew scripts,
